@@ -21,7 +21,10 @@ def main():
         d = os.path.join(V, "seeded", n)
         prop = n.split("-")[0]
         sh("git -C %s checkout -q -- ." % WT)
+        sh("git -C %s checkout -q --detach main" % WT)   # current /repo HEAD (includes the fix: commits)
         r = sh("git -C %s apply %s/patch.diff" % (WT, d))
+        if r.returncode:
+            r = sh("git -C %s apply --3way %s/patch.diff" % (WT, d))
         if r.returncode:
             print(n, "PATCH DOES NOT APPLY", r.stderr)
             continue
